@@ -5,10 +5,34 @@
     Model/SigCtxModel.v (ParserContext.add_arg tables, as_kwargs, bind).
     Guards (Spec/C09Spec.v): [wf_sig] = distinct ASCII identifiers whose dashed
     forms are pairwise distinct; [all_have_core], [no_inverse_clash] delimit the
-    two known findings F-C09b/d (F-C09c was repaired by d208a4d). *)
+    two known findings F-C09b/d (F-C09c was repaired by d208a4d).
+
+    DISCLOSURE on refusals.  [spec_ok] accepts the answer "ValueError" exactly
+    when the dashed forms of two parameter names coincide ([dashed_clash],
+    e.g. [foo] and [foo_], [_a] and [a]).  This is not an exemption carved out for the
+    implementation: the property demands "all flag names within the task
+    being distinct" AND "exactly one argument per parameter, reachable through
+    a well-formed long flag (underscores shown as dashes)".  For [foo]/[foo_]
+    both parameters' documented long flag is [--foo]; no command-line
+    interface satisfies both demands, so the only answers compatible with the
+    property are to refuse the task or to violate one of its clauses, and
+    refusing is the one that keeps every clause true of every task that is
+    accepted.  [wf_sig]'s third conjunct is that premise; outside it the
+    judgement is "must be refused" (an [Ok] answer is a violation), inside it
+    "must be accepted" ([C09_accepted], full strength).  The same reading is
+    applied to help=: a key naming no parameter (or two keys naming one) has no
+    argument to sit on, and the documented answer is ValueError
+    ([C09_help_unknown_refused]).
+
+    The call.  "The keyword arguments produced for a task always bind to its
+    function" is judged twice: [o_binds] ([inspect.signature(body).bind]) and
+    [c_calls] of Corr/C09Corr.v (the task is really called through
+    Executor.normalize and must hand every parameter its value).  Three known
+    findings live here: F-C09e (a parameter named [self]), F-C09f
+    (positional-only parameters), F-C09g (star-args / double-star kwargs). *)
 From InvokeVerif Require Import Model.SigCtxModel Spec.C09Spec
      Proofs.C09_facts Proofs.C09_sig Proofs.C09_ctx Proofs.C09_wf Proofs.C09_main
-     Proofs.C09_order Proofs.C09_bounded Proofs.C09_flagship.
+     Proofs.C09_order Proofs.C09_bounded Proofs.C09_flagship Proofs.C09_help.
 From Coq Require Import Permutation.
 
 (** Exactly one argument per parameter, for every signature. *)
@@ -177,3 +201,79 @@ Example C09_dash_fix_example :
             all_spellings o = ["-a"; "--a-b"; "-b"] /\
             spec_ok (mkSig [mkParam "a" DEmpty; mkParam "a_b" DEmpty] deco0) (Ok o) = true.
 Proof. exact dash_fix_example. Qed.
+
+(** help= (a decorator option of the quantifier): for every signature with
+    distinct dashed names and every help dictionary whose keys each name
+    exactly one parameter -- by its Python or by its command-line spelling --
+    and no parameter twice ([help_wf]), [get_arguments] succeeds and every
+    Argument carries exactly the text given for its parameter ([None] when
+    none was given). *)
+Theorem C09_help_texts_partial :
+  forall s h, wf_sig s = true -> help_wf s h = true ->
+  exists hs, get_help s h = Ok hs /\
+    Permutation hs (map (fun p => (p_name p, expected_help h p)) (s_params s)) /\
+    forall p, In p (s_params s) -> aget (p_name p) hs = Some (expected_help h p).
+Proof. exact help_texts. Qed.
+
+(** A help key that names no parameter is refused, for every signature. *)
+Theorem C09_help_unknown_refused :
+  forall s h kv, In kv h -> (forall p, In p (s_params s) -> key_names (fst kv) p = false) ->
+  get_help s h = Err EValue.
+Proof. exact help_unknown_refused. Qed.
+
+(** Flagship with help= and the call: on the guarded region, for every help
+    dictionary in [help_wf] and no parameter named [self] (F-C09e), the model
+    satisfies the whole judgement [spec_task] (CLI, help texts, the call hands
+    every parameter its value).  Parameter kinds other than plain ones are
+    outside (F-C09f/g).  Missing besides the guards: help dictionaries outside
+    [help_wf] other than unknown keys (two spellings of one parameter) are
+    covered by the correspondence runs only. *)
+Theorem C09_spec_task_partial :
+  forall s h, full_guard s = true -> help_wf s h = true -> no_self s = true ->
+  exists o hs, sig_cli s = Ok o /\ get_help s h = Ok hs /\
+    spec_task s h (Ok o) hs (o_binds o && call_ok [] (o_kwargs o)) = true.
+Proof. exact spec_task_partial. Qed.
+
+(** F-C09e: [def t(c, self='x')] -- inside every guard, the signature binds,
+    the CLI judgement holds, but the call collides with Task.__call__'s own
+    [self]. *)
+Theorem C09_call_self_refuted :
+  full_guard sig_self = true /\
+  exists o, sig_cli sig_self = Ok o /\ o_binds o = true /\ spec_ok sig_self (Ok o) = true /\
+            call_ok [] (o_kwargs o) = false /\
+            spec_task sig_self [] (Ok o) [("self", None)] (o_binds o && call_ok [] (o_kwargs o)) = false.
+Proof. exact self_param_refutes. Qed.
+
+(** F-C09f: [def t(c, a, /, b=1)] -- both parameters become keyword arguments;
+    Python refuses a positional-only parameter passed by keyword. *)
+Theorem C09_call_posonly_refuted :
+  full_guard sig_posonly = true /\
+  exists o, sig_cli sig_posonly = Ok o /\
+            map fst (o_kwargs o) = ["a"; "b"] /\
+            bind_kinds (s_params sig_posonly) [PPosOnly; PPlain] (o_kwargs o) = false /\
+            call_ok [PPosOnly; PPlain] (o_kwargs o) = false.
+Proof. exact posonly_refutes. Qed.
+
+(** F-C09g: star-args becomes a positional Argument [args] passed by keyword
+    (refused by Python); double-star kwargs is called with
+    [kwargs={'kwargs': None}] instead of its own empty default. *)
+Theorem C09_call_varargs_refuted :
+  full_guard sig_varargs = true /\ full_guard sig_varkw = true /\
+  (exists o, sig_cli sig_varargs = Ok o /\ o_positional o = ["args"] /\
+             bind_kinds (s_params sig_varargs) [PVarPos] (o_kwargs o) = false /\
+             call_ok [PVarPos] (o_kwargs o) = false) /\
+  (exists o, sig_cli sig_varkw = Ok o /\ o_kwargs o = [("kwargs", ANone)] /\
+             bind_kinds (s_params sig_varkw) [PVarKw] (o_kwargs o) = true /\
+             call_ok [PVarKw] (o_kwargs o) = false).
+Proof. exact varargs_refutes. Qed.
+
+(** Non-vacuity of the help theorems: the audit's own example,
+    [@task(help={'type_': ...}) def build(c, name, type_='lib')]. *)
+Example C09_help_example :
+  let s := mkSig [mkParam "name" DEmpty; mkParam "type_" (DStr "lib")] (mkDeco None [] [] [] true) in
+  full_guard s = true /\ no_self s = true /\
+  help_wf s [("type_", "kind of artefact")] = true /\ help_wf s [("type", "kind of artefact")] = true /\
+  get_help s [("type_", "kind of artefact")] = Ok [("name", None); ("type_", Some "kind of artefact")] /\
+  get_help s [("type", "kind of artefact")] = Ok [("name", None); ("type_", Some "kind of artefact")] /\
+  get_help s [("typ", "kind of artefact")] = Err EValue.
+Proof. cbv zeta. repeat split; vm_compute; reflexivity. Qed.
